@@ -138,10 +138,10 @@ Theorem C04_ramp_resize3 :
              (vtab 3 c) (tab 3 3 d) [of_Z jx; of_Z jy; of_Z jz]) + b.
 Proof. exact (ramp_resize3 K Kf Kc floorK). Qed.
 
-(* resample: holds for the interpolating branch of core.image.grid_resample.  The full statement ("every call of
-   Image.resample returns the ramp on the returned grid") is FALSE of the unchanged code: when the rounded new shape equals
-   the old shape the data is returned unresampled while the grid's spacing changes -- see C04_resample_same_shape_refuted. *)
-Theorem C04_ramp_resample2_partial :
+(* Image.resample (data side core.image.grid_resample = d_resample, grid side Grid.resample: same center and direction, new
+   spacing s', new size mz): for EVERY new spacing and size -- also when the rounded shape does not change -- the ramp on the
+   old grid is returned as the same ramp on the new grid wherever the source cell lies inside the image *)
+Theorem C04_ramp_resample2 :
   forall (nz mz : nat -> Z) (s c : nat -> K) (d : nat -> nat -> K) (A : list K) (b : K) (im : nimg (K:=K)),
   length A = 2%nat -> ishape im = [nz 0%nat; nz 1%nat] ->
   (forall ix iy, (0 <= ix < nz 0%nat)%Z -> (0 <= iy < nz 1%nat)%Z ->
@@ -149,12 +149,11 @@ Theorem C04_ramp_resample2_partial :
   forall (s' : nat -> K) (jx jy : Z), (forall i, (i < 2)%nat -> s i <> 0) ->
   fovc floorK (nz 0%nat) (resample_src (nz 0%nat) (mz 0%nat) (s 0%nat) (s' 0%nat) jx) ->
   fovc floorK (nz 1%nat) (resample_src (nz 1%nat) (mz 1%nat) (s 1%nat) (s' 1%nat) jy) ->
-  ival (interp_ax floorK PZeros 1 (resample_src (nz 1%nat) (mz 1%nat) (s 1%nat) (s' 1%nat)) (mz 1%nat)
-          (interp_ax floorK PZeros 0 (resample_src (nz 0%nat) (mz 0%nat) (s 0%nat) (s' 0%nat)) (mz 0%nat) im)) [jx; jy]
+  ival (d_resample floorK 2 (vtab 2 s) (vtab 2 s') [mz 0%nat; mz 1%nat] im) [jx; jy]
   = dot A (gen_pts 2 GRID WORLD (vtab 2 (fun i => of_Z (mz i))) (vtab 2 s') (vtab 2 c) (tab 2 2 d) [of_Z jx; of_Z jy]) + b.
-Proof. exact (ramp_resample2 K Kf Kc floorK). Qed.
+Proof. exact (ramp_d_resample2 K Kf Kc floorK). Qed.
 
-Theorem C04_ramp_resample3_partial :
+Theorem C04_ramp_resample3 :
   forall (nz mz : nat -> Z) (s c : nat -> K) (d : nat -> nat -> K) (A : list K) (b : K) (im : nimg (K:=K)),
   length A = 3%nat -> ishape im = [nz 0%nat; nz 1%nat; nz 2%nat] ->
   (forall ix iy iz, (0 <= ix < nz 0%nat)%Z -> (0 <= iy < nz 1%nat)%Z -> (0 <= iz < nz 2%nat)%Z ->
@@ -164,11 +163,9 @@ Theorem C04_ramp_resample3_partial :
   fovc floorK (nz 0%nat) (resample_src (nz 0%nat) (mz 0%nat) (s 0%nat) (s' 0%nat) jx) ->
   fovc floorK (nz 1%nat) (resample_src (nz 1%nat) (mz 1%nat) (s 1%nat) (s' 1%nat) jy) ->
   fovc floorK (nz 2%nat) (resample_src (nz 2%nat) (mz 2%nat) (s 2%nat) (s' 2%nat) jz) ->
-  ival (interp_ax floorK PZeros 2 (resample_src (nz 2%nat) (mz 2%nat) (s 2%nat) (s' 2%nat)) (mz 2%nat)
-         (interp_ax floorK PZeros 1 (resample_src (nz 1%nat) (mz 1%nat) (s 1%nat) (s' 1%nat)) (mz 1%nat)
-           (interp_ax floorK PZeros 0 (resample_src (nz 0%nat) (mz 0%nat) (s 0%nat) (s' 0%nat)) (mz 0%nat) im))) [jx; jy; jz]
+  ival (d_resample floorK 3 (vtab 3 s) (vtab 3 s') [mz 0%nat; mz 1%nat; mz 2%nat] im) [jx; jy; jz]
   = dot A (gen_pts 3 GRID WORLD (vtab 3 (fun i => of_Z (mz i))) (vtab 3 s') (vtab 3 c) (tab 3 3 d) [of_Z jx; of_Z jy; of_Z jz]) + b.
-Proof. exact (ramp_resample3 K Kf Kc floorK). Qed.
+Proof. exact (ramp_d_resample3 K Kf Kc floorK). Qed.
 
 (* window means of a 2-D index-affine image (pooling, data side) *)
 Theorem C04_pool_affine2 :
@@ -288,7 +285,7 @@ Print Assumptions C04_lockstep_resample.
 Print Assumptions C04_pool_axis_affine.
 Print Assumptions C04_stencil_axis_affine.
 Print Assumptions C04_ramp_resize3.
-Print Assumptions C04_ramp_resample3_partial.
+Print Assumptions C04_ramp_resample3.
 Print Assumptions C04_crop_exact3.
 Print Assumptions C04_center_pad_exact2.
 Print Assumptions C04_ramp_chain.
@@ -300,14 +297,16 @@ Theorem C04_ceilQc :
   (forall (x : Qc) (z : Z), ceilQc (fsub (K:=QcF) x (of_Z z)) = (ceilQc x - z)%Z).
 Proof. exact (conj ceilQc_int ceilQc_shift). Qed.
 
-(* 12. where the unchanged code does NOT keep data and grid in lock-step (faithful model, vm_compute witnesses) *)
-Theorem C04_resample_same_shape_refuted :
+(* 12. executable instance: the formerly defective same-shape resample (4 x 3 unit grid to spacing (6/5, 1)) is in lock-step on the
+       repaired code; the one remaining place where the code does NOT keep data and grid shapes together (faithful model, witness) *)
+Theorem C04_resample_same_shape_lockstep :
   let op := OResample (K:=QcF) [q 6 5; q 1 1] 1 in
   let g' := apply_op (K:=QcF) ceilQc floorQc leQc 2 op ex_grid in
   let out := apply_data 2 (IGrid op (q 0 1) []) ex_grid g' ex_img in
-  ishape out = nZ (K:=QcF) ceilQc g' /\
-  exists J, in_box (ishape out) J = true /\ ival out J <> ex_ramp g' J.
-Proof. exact resample_same_shape_refuted. Qed.
+  ishape out = nZ (K:=QcF) ceilQc g' /\ ishape out = ishape ex_img /\
+  forallb (fun J => negb (in_hull ex_grid g' J) || qeqb (ival out J) (ex_ramp g' J)) (indices (ishape out)) = true /\
+  existsb (fun J => in_hull ex_grid g' J && negb (qeqb (ival out J) (ival ex_img J))) (indices (ishape out)) = true.
+Proof. exact resample_same_shape_lockstep. Qed.
 
 Theorem C04_upsample_fractional_size_refuted :
   let g := mkG (K:=QcF) [q 5 2; q 2 1] [q 2 1; q 2 1] [q 0 1; q 0 1] [[q 1 1; q 0 1]; [q 0 1; q 1 1]] true in
@@ -316,7 +315,7 @@ Theorem C04_upsample_fractional_size_refuted :
   nZ (K:=QcF) ceilQc g = [3; 2]%Z /\ nZ (K:=QcF) ceilQc g' = [5; 4]%Z /\ up_size 1 None [3; 2]%Z = [6; 4]%Z.
 Proof. exact upsample_fractional_size_refuted. Qed.
 
-Print Assumptions C04_resample_same_shape_refuted.
+Print Assumptions C04_resample_same_shape_lockstep.
 
 (* non-vacuity: the hypotheses of theorem 6 hold for a concrete ramp image, and the executable model resizes it to the
    same ramp on the resized grid (4 x 3 -> 7 x 5, align_corners = true), at a non-trivial output index *)
